@@ -277,6 +277,8 @@ pub struct TypeSystem {
     pub query: String,
     pub mutation: Option<String>,
     pub subscription: Option<String>,
+    /// custom directives usable on fields (name, arguments); no effect on execution
+    pub custom_directives: Vec<(String, Vec<ArgDef>)>,
 }
 
 impl TypeSystem {
